@@ -59,9 +59,9 @@ CHECKS = {
             'Truth for the launch part is what the child itself reports. Double quotes are only used for segments '
             'without a backslash (unspecified otherwise).',
             'DESIGN.md 3/C13'),
-    'C14': ('real fdspawn on a pipe under asyncio + blocking twin on E1',
+    'C14': ('real fdspawn on a pipe / pty pair under asyncio + blocking twin on E1',
             'Hypothesis-generated call histories mixing awaited and blocking calls with generated arrival schedules on a '
-            'real pipe; the chunks each call received are observed through logfile_read and replayed on the blocking '
+            'real pipe or pty pair; the chunks each call received are observed through logfile_read and replayed on the blocking '
             'implementation (differential twin); delivery completeness at every TIMEOUT/EOF; wall-clock bound on awaited timeouts',
             'After every call the awaited result (index/exception, before, after, match, pending text) must equal what the '
             'blocking Expecter computes from exactly the chunks the asyncio protocol was given, incl. data arriving between '
